@@ -27,6 +27,7 @@ type harnessCtx struct {
 	holeDone bool
 	holeBlock *ssa.BasicBlock
 	holePC   *PC
+	pinCond  *Term
 	resultVars map[string]bool // fresh leaves of the result of the applied contract
 	subst    map[string]*Term  // result leaves pinned by a postcondition
 	havocVars map[string]string // fresh value of a havoc'd field -> memory name
@@ -98,6 +99,10 @@ func (e *Engine) havocResults(st *State, sig *types.Signature, prefix string) []
 		t := res.At(i).Type()
 		ts := freshTerms(prefix, t)
 		st.assume(wfAssumptions(ts, t, true))
+		// results may be regions the callee allocated: reserve a window of ids for them,
+		// then nothing allocated later by the caller can be confused with a result
+		e.allocSeq += 16
+		e.assumeNotFuture(st, ts, t)
 		out[i] = e.unflat(ts, t)
 	}
 	return out
@@ -171,7 +176,7 @@ var intrinsicNames = map[string]bool{
 	"vRequires": true, "vEnsures": true, "vAssert": true, "vAssume": true, "vForall": true, "vExists": true,
 	"vSameRegion": true, "vOffset": true, "vModifiesBytes": true, "vModifiesAll": true, "vFresh": true,
 	"vCanary": true, "vAllocs": true, "vUnreachable": true, "vModifiesObj": true, "vNoAlias": true, "vOpaque": true,
-	"vModifiesNothing": true, "vBorrowed": true, "vIsFreshRegion": true, "vModifiesHeap": true, "vStrictLen": true, "vAtEntry": true, "vFuel": true, "vModifiesMems": true, "vReveal": true, "vModifiesField": true,
+	"vModifiesNothing": true, "vBorrowed": true, "vIsFreshRegion": true, "vModifiesHeap": true, "vStrictLen": true, "vAtEntry": true, "vKeptOrNew": true, "vWireCount": true, "vWireLast": true, "vModifiesWire": true, "vFuel": true, "vModifiesMems": true, "vReveal": true, "vModifiesField": true,
 }
 
 func (e *Engine) callStatic(fr *Frame, st *State, callee *ssa.Function, args []Value, site ssa.Instruction) []Value {
@@ -254,7 +259,7 @@ func (e *Engine) callStatic(fr *Frame, st *State, callee *ssa.Function, args []V
 	}
 	nf := e.newFrame(callee, fr)
 	nf.prefix = fr.prefix
-	if strings.HasPrefix(callee.Name(), "spec_") || strings.HasPrefix(callee.Name(), "verif_") {
+	if strings.HasPrefix(callee.Name(), "spec_") || strings.HasPrefix(callee.Name(), "verif_") || strings.HasPrefix(callee.Name(), "VerifSpec") {
 		nf.spec = true
 	} else {
 		if fr.fn != nil && !strings.HasPrefix(fr.fn.Name(), "verif_") && !strings.HasPrefix(fr.fn.Name(), "spec_") {
@@ -382,6 +387,22 @@ func (e *Engine) applyModifies(st *State, h *harnessCtx) {
 				}
 			}
 			h.pats = append(h.pats, m.pats...)
+		case "wire":
+			n := e.ghostGet(st, "wire.count", IntSort)
+			nn := FreshVar("wire.count", IntSort)
+			st.assume(BVSle(n, nn))
+			st.ghost["wire.count"] = nn
+			wr := FreshVar("wire.r", RegionSort)
+			wo := FreshVar("wire.o", IntSort)
+			// the frame was sent during the call: its buffer is not one allocated later, offsets are sane
+			e.allocSeq += 16
+			regionNotAfter[wr.id] = e.allocSeq
+			st.assume(And(BVUle(wr, BVConstU(0xF000000000000000+e.allocSeq, RegionSort)), BVUlt(wo, BVConstU(1<<48, IntSort))))
+			st.ghost["wire.r"] = wr
+			st.ghost["wire.o"] = wo
+			wl := FreshVar("wire.l", IntSort)
+			st.assume(And(BVSle(BVConst(0, IntSort), wl), BVSlt(wl, BVConstU(1<<48, IntSort))))
+			st.ghost["wire.l"] = wl
 		case "heap":
 			if writeLog != nil {
 				writeLog("*heap", nil)
@@ -431,7 +452,14 @@ func (e *Engine) intrinsic(fr *Frame, st *State, callee *ssa.Function, args []Va
 		if h != nil && h.mode == modeApply {
 			// pinning is only sound for postconditions stated on every path after the call
 			if h.holeBlock != nil && (postDominates(site.Block(), h.holeBlock) || pcBranchFree(st.pc, h.holePC)) {
-				e.refineHavoc(st, h, c)
+				h.pinCond = True
+			} else if h.holeBlock != nil {
+				h.pinCond = pcBranchDelta(st.pc, h.holePC)
+			}
+			if h.holeBlock != nil {
+				if h.pinCond == True {
+					e.refineHavoc(st, h, c)
+				}
 				if e.pinResults(h, c) {
 					// later harness code sees the pinned terms as well
 					for k, v := range fr.regs {
@@ -581,6 +609,37 @@ func (e *Engine) intrinsic(fr *Frame, st *State, callee *ssa.Function, args []Va
 			unsup("vAtEntry value not recorded at loop entry")
 		}
 		return []Value{scalar(v)}
+	case "vWireCount":
+		return []Value{scalar(e.ghostGet(st, "wire.count", IntSort))}
+	case "vWireLast":
+		return []Value{{T: []*Term{e.ghostGet(st, "wire.r", RegionSort), e.ghostGet(st, "wire.o", IntSort), e.ghostGet(st, "wire.l", IntSort), e.ghostGet(st, "wire.l", IntSort)}}}
+	case "vModifiesWire":
+		if h == nil {
+			unsup("vModifiesWire outside a harness")
+		}
+		h.modifies = append(h.modifies, modClause{kind: "wire"})
+		return nil
+	case "vKeptOrNew":
+		// (loop invariants) the slice still is the backing array it was at loop entry
+		// (same region, offset and capacity) or one allocated since then
+		ev := e.loopEval
+		if ev == nil {
+			unsup("vKeptOrNew outside a loop invariant")
+		}
+		ord := siteOrdinal(fr.fn, site, "vKeptOrNew")
+		s := args[0].T
+		if ev.entry {
+			ev.head.entrySlices[ord] = []*Term{s[0], s[1], s[3]}
+			ev.head.entrySeq = e.allocSeq
+			return []Value{scalar(True)}
+		}
+		o, ok := ev.head.entrySlices[ord]
+		if !ok {
+			unsup("vKeptOrNew value not recorded at loop entry")
+		}
+		kept := And(Eq(s[0], o[0]), Eq(s[1], o[1]), Eq(s[3], o[2]))
+		fresh := BVUlt(BVConstU(0xF000000000000000+ev.head.entrySeq, RegionSort), s[0])
+		return []Value{scalar(Or(kept, fresh))}
 	case "vFuel":
 		if h != nil && h.mode == modeVerify && args[0].term().IsConst() {
 			e.unfoldFuel = int(args[0].term().val.Int64())
@@ -597,12 +656,7 @@ func (e *Engine) intrinsic(fr *Frame, st *State, callee *ssa.Function, args []Va
 		}
 		return nil
 	case "vAllocs":
-		g, ok := st.ghost["allocs"]
-		if !ok {
-			g = BVConst(0, 64)
-			st.ghost["allocs"] = g
-		}
-		return []Value{scalar(g)}
+		return []Value{scalar(e.ghostGet(st, "allocs", 64))}
 	case "vForall", "vExists":
 		return []Value{scalar(e.quantifier(fr, st, name == "vForall", args, site))}
 	case "vOpaque":
@@ -1243,13 +1297,21 @@ func (e *Engine) pinResults(h *harnessCtx, c *Term) bool {
 				terms = append(terms, BVNeg(a))
 			}
 			t := bvSum(v.sort, terms...)
-			if mentions(t, v.name) {
+			if mentions(t, v.name) || termSize(t, 12) > 12 {
 				continue
+			}
+			if h.pinCond != nil && h.pinCond != True {
+				// postcondition stated on some paths only: the result is pinned under that condition
+				t = Ite(h.pinCond, t, v)
 			}
 			h.subst[v.name] = t
 			pinned = true
 			if os.Getenv("GOVC_DEBUG_PIN") != "" {
-				fmt.Printf("PIN %s := %s\n", v.name, t)
+				s := t.String()
+				if len(s) > 200 {
+					s = s[:200]
+				}
+				fmt.Printf("PIN %s := %s\n", v.name, s)
 			}
 			break
 		}
@@ -1281,4 +1343,41 @@ func postDominates(b, h *ssa.BasicBlock) bool {
 		stack = append(stack, x.Succs...)
 	}
 	return true
+}
+
+func (e *Engine) ghostGet(st *State, name string, s Sort) *Term {
+	if g, ok := st.ghost[name]; ok {
+		return g
+	}
+	g := Var("ghost0."+name, s)
+	if name == "wire.count" {
+		st.assume(And(BVSle(BVConst(0, IntSort), g), BVSlt(g, BVConstU(1<<40, IntSort))))
+	}
+	st.ghost[name] = g
+	return g
+}
+
+// wireSend records a frame handed to the session connection.
+func (e *Engine) wireSend(st *State, frame []*Term) {
+	n := e.ghostGet(st, "wire.count", IntSort)
+	st.ghost["wire.count"] = BVAdd(n, BVConst(1, IntSort))
+	st.ghost["wire.r"], st.ghost["wire.o"], st.ghost["wire.l"] = frame[0], frame[1], frame[2]
+}
+
+// termSize counts DAG nodes up to a limit.
+func termSize(t *Term, limit int) int {
+	n := 0
+	seen := map[int]bool{}
+	stack := []*Term{t}
+	for len(stack) > 0 && n <= limit {
+		x := stack[len(stack)-1]
+		stack = stack[:len(stack)-1]
+		if seen[x.id] {
+			continue
+		}
+		seen[x.id] = true
+		n++
+		stack = append(stack, x.args...)
+	}
+	return n
 }
